@@ -37,6 +37,46 @@ type FuncInfo struct {
 	Obj  *types.Func
 	Pkg  *packages.Package
 	Lits []*ast.FuncLit // function literals in source order (pre-order)
+
+	parents map[ast.Node]ast.Node // lazily built by parentOf
+}
+
+// parentOf returns the syntactic parent of a node of the function's body.
+func (f *FuncInfo) parentOf(n ast.Node) ast.Node {
+	if f.parents == nil {
+		f.parents = map[ast.Node]ast.Node{}
+		if f.Decl.Body != nil {
+			var stack []ast.Node
+			ast.Inspect(f.Decl.Body, func(m ast.Node) bool {
+				if m == nil {
+					stack = stack[:len(stack)-1]
+					return true
+				}
+				if len(stack) > 0 {
+					f.parents[m] = stack[len(stack)-1]
+				}
+				stack = append(stack, m)
+				return true
+			})
+		}
+	}
+	return f.parents[n]
+}
+
+// scopeBlockOf returns the innermost statement list container (block, case clause, comm clause) holding n.
+func (f *FuncInfo) scopeBlockOf(n ast.Node) ast.Node {
+	for x := f.parentOf(n); x != nil; x = f.parentOf(x) {
+		switch x.(type) {
+		case *ast.BlockStmt, *ast.CaseClause, *ast.CommClause:
+			return x
+		}
+	}
+	return nil
+}
+
+// encloses reports whether node outer contains position pos.
+func encloses(outer ast.Node, pos token.Pos) bool {
+	return outer != nil && outer.Pos() <= pos && pos <= outer.End()
 }
 
 func (f *FuncInfo) Info() *types.Info { return f.Pkg.TypesInfo }
